@@ -81,6 +81,9 @@ OBLIGATIONS = []
 for e in all_entries():
     OBLIGATIONS.append(entry_obl("rt_der", rt_der, e))
     OBLIGATIONS.append(entry_obl("rt_cer", rt_cer, e))
+for e in all_entries(ber_only=True):
+    if e.has("ber_only"):
+        OBLIGATIONS.append(entry_obl("rt_cer", rt_cer, e))  # values only BER/CER can carry: the DER half of the property does not apply
 OBLIGATIONS.append(Obl("long_strings", long_strings, {"kind": I(0, 5), "size": I(0, 3), "x": I(0, 127), "pos": I(0, 2), "der": B},
                        shards=[{"kind": C(k), "der": C(d)} for k in range(4) for d in (False, True)] +
                               [{"kind": C(k), "der": C(d), "size": C(z), "x": C(0), "pos": C(0)} for k in (4, 5) for d in (False, True) for z in range(4)], budget=120, per_path=60,
